@@ -172,3 +172,40 @@ Print Assumptions C10_injective_mapping_passes_PERM.
 Theorem C10_non_permutation_refused : forall m, ~ permok (perm_vect m) -> is_perm (perm_vect m) = false.
 Proof. exact genperm_rejects. Qed.
 Print Assumptions C10_non_permutation_refused.
+
+(* ---- unavailable modes: every cause x every mapping form ----
+   unavailable e k : k is negative, beyond the circuit, heralded, or closed by a detector;
+   names_mode lnames n mp k : the mapping mp (offset covering k, list containing k, dict entry k -> v, or dict entry by
+   port / herald name whose modes include k) names the left mode k *)
+Theorem C10_unavailable_is_exactly_not_connectible : forall (R : cring) (e : exp R) k,
+  connectible e k = false <-> unavailable e k.
+Proof. intros R. exact (@unavailable_iff R). Qed.
+Print Assumptions C10_unavailable_is_exactly_not_connectible.
+
+Theorem C10_component_on_unavailable_mode_rejected : forall (R : cring) tb cf (e : exp R) mp k Uc keep x,
+  names_mode (left_names R e) k mp x -> unavailable e x -> add_comp tb cf e mp k Uc keep = (e, false, None).
+Proof. exact add_comp_rejects_unavailable. Qed.
+Print Assumptions C10_component_on_unavailable_mode_rejected.
+
+Theorem C10_processor_on_unavailable_mode_rejected : forall (R : cring) tb cf (e : exp R) mp r keep x,
+  names_mode (left_names R e) (e_moi r) mp x -> unavailable e x -> add_proc tb cf e mp r keep = (e, false, None).
+Proof. exact add_proc_rejects_unavailable. Qed.
+Print Assumptions C10_processor_on_unavailable_mode_rejected.
+
+(* the heralded modes of the left-hand side: declared by add_herald, or appended by the plug of a heralded processor *)
+Theorem C10_add_herald_makes_mode_heralded : forall (R : cring) (e e' : exp R) mode ex nm,
+  add_herald e mode ex nm = (e', true) -> mode < length (e_types e) -> nth mode (e_types e') Classical = HeraldT.
+Proof. exact add_herald_marks. Qed.
+Print Assumptions C10_add_herald_makes_mode_heralded.
+
+Theorem C10_appended_modes_are_heralded : forall (R : cring) tb cf (e : exp R) mp r keep e' seg j,
+  add_proc tb cf e mp r keep = (e', true, seg) -> length (e_types e) = csize e ->
+  csize e <= j < csize e + length (herald_modes r) -> nth j (e_types e') Classical = HeraldT.
+Proof. exact add_proc_new_modes_heralded. Qed.
+Print Assumptions C10_appended_modes_are_heralded.
+
+Example C10_unavailable_causes_satisfiable : forall R : cring,
+  let e := fst (add_herald (new_exp (R:=R) 3) 1 1 None) in
+  unavailable e 1%Z /\ unavailable e 3%Z /\ unavailable e (-1)%Z /\ names_mode (left_names R e) 2 (MInt 0%Z) 1%Z.
+Proof. intros R e. split. apply UHeralded. lia. reflexivity. split. apply UBeyond. lia. vm_compute. lia.
+  split. apply UNegative. lia. exists 1. split. lia. reflexivity. Qed.
